@@ -143,6 +143,7 @@ pub fn run_case(ctx: &mut Ctx, fam: &str, k: u64, r: &mut Rng) {
         ctx.hist("n_parameters", &n.to_string());
         ctx.sample(&format!("n{}", n), || desc.clone());
         let mut params: Vec<Param> = vec![];
+        let mut installed: Vec<Array> = vec![];
         for i in 0..n {
             let m = numel(&shapes[i]);
             let v: Vec<f64> = if dyadic { (0..m).map(|_| 0.25 * r.int(-16, 16)).collect() } else { (0..m).map(|_| r.int(-1000, 1000) / 333.0).collect() };
@@ -150,7 +151,11 @@ pub fn run_case(ctx: &mut Ctx, fam: &str, k: u64, r: &mut Rng) {
             let a = if r.chance(4, 5) { a.tracked() } else { a };
             if subset >> i & 1 == 1 {
                 let g: Vec<f64> = if dyadic { (0..m).map(|_| 0.25 * r.int(-16, 16)).collect() } else { (0..m).map(|_| r.int(-1000, 1000) / 777.0).collect() };
-                *a.gradient_mut() = Some(arr(&shapes[i], &g));
+                let ga = arr(&shapes[i], &g);
+                if r.chance(1, 2) {
+                    installed.push(ga.clone());
+                }
+                *a.gradient_mut() = Some(ga);
             }
             params.push(snapshot(a));
         }
@@ -182,6 +187,11 @@ pub fn run_case(ctx: &mut Ctx, fam: &str, k: u64, r: &mut Rng) {
         ctx.case(&format!("passes|{:?}|{:?}|{:?}|{}", full, shapes, used, lr), used.iter().any(|u| !*u) && used.iter().any(|u| *u));
         ctx.sample("passes", || desc.clone());
         let ps: Vec<Array> = shapes.iter().map(|d| arr(d, &rand_ints(r, numel(d), -3, 3)).tracked()).collect();
+        // the graph (as in the README loop: the model still holds its output) and gradients fetched by the caller may
+        // well be alive while the optimizer runs
+        let keep_graph = r.chance(1, 2);
+        let keep_grads = r.chance(1, 2);
+        let mut kept: Vec<Array> = vec![];
         let built = guard(|| {
             let mut acc: Option<Array> = None;
             for (p, u) in ps.iter().zip(&used) {
@@ -199,13 +209,25 @@ pub fn run_case(ctx: &mut Ctx, fam: &str, k: u64, r: &mut Rng) {
                 if r.chance(1, 3) {
                     root.backward(None);
                 }
+                if keep_grads {
+                    for p in &ps {
+                        if let Some(g) = p.gradient().as_ref() {
+                            kept.push(g.clone());
+                        }
+                    }
+                }
+                if keep_graph {
+                    kept.push(root);
+                }
             }
         });
+        ctx.hist("alive_during_update", &format!("graph={} fetched-gradients={}", keep_graph, keep_grads));
         if let Err(m) = built {
             ctx.violation(&format!("C13|{}|pass-panic:{}", fam, panic_class(&m)), format!("building gradients panicked: {}\n{}", m, desc));
             return;
         }
         let mut params: Vec<Param> = ps.into_iter().map(snapshot).collect();
-        check_update(ctx, fam, &mut params, lr, &desc);
+        check_update(ctx, fam, &mut params, lr, &format!("{} keep_graph={} keep_grads={}", desc, keep_graph, keep_grads));
+        drop(kept);
     }
 }
